@@ -3,8 +3,9 @@
 Tie. Generated PROGRAMS (source text) define one @beartype-checked callable at module level, in (nested) class
 bodies (method-level or class-level decoration) or in closures, with the names of its annotation bound before the
 decoration, after it but before a call, after a first call, or never, in module / enclosing-function / class scope.
-Every program is rendered in four variants (evaluated annotation, whole-annotation string literal,
-`from __future__ import annotations`, strings only at the user-class names) and run in a fresh interpreter
+Every program is rendered in five variants (evaluated annotation, whole-annotation string literal, that literal
+under `from __future__ import annotations`, the evaluated text under that import = PEP 563, strings only at the
+user-class names) and run in a fresh interpreter
 (harness/impl/c07run.py) under FORCED sampler draws; each probe yields a verdict vector over a fixed object set
 (instances, subclass instances, same-named decoy classes, containers of them in every position).
 
@@ -32,7 +33,10 @@ from ..common import (LEAN, Check, Explore, Failure, lean_driver, parse_sexp, se
 MODULE = 'BearVerif.Props.C07'
 PROP_FILE = LEAN / 'BearVerif/Props/C07.lean'
 DRAWS = [0, 1]
-VARIANTS = ['eval', 'str', 'future', 'inner']
+# eval: evaluated annotation; str: the whole annotation as a string literal; future: that string literal under
+# `from __future__ import annotations` (a postponed string literal: the string of a string); pep563: the evaluated
+# variant's text under `from __future__ import annotations` (PEP 563 proper); inner: strings only at the user names
+VARIANTS = ['eval', 'str', 'future', 'pep563', 'inner']
 
 # ---------------------------------------------------------------------------
 # the fixed part of every program: builtins, prelude imports, helper module
@@ -47,7 +51,8 @@ HEAP0 = {30: {'Optional': 20, 'Union': 21, 'Literal': 22, 'List': 23, 'Dict': 24
          31: {'Cls': 32, 'Sub': 33}, 33: {'Inner': 34}}
 HELPER_SRC = 'class Cls:\n    pass\n\n\nclass Sub:\n    class Inner:\n        pass\n'
 PRELUDE_SRC = ('from typing import Optional, Union, Literal, List, Dict, Sequence\nimport typing\n'
-               'import c07_helper as hm\nfrom beartype import beartype\n')
+               "import c07_helper as hm\nfrom beartype import beartype\nT_ = typing.TypeVar('T_')\n")
+GENERIC_BASE = 'typing.Generic[T_]'          # base of the value kind "user generic class": `K[int]` is legal
 HELPER_CLASSES = [32, 34]
 
 BASE_OBJS = [['i', 1], ['s', 'a'], ['f', 2.5], ['none'], ['b', True], ['list', []], ['list', [['i', 1]]],
@@ -141,6 +146,10 @@ def quote_leaves(e, user):
     if k == 's':
         if e[1] == N('Literal'):
             return e
+        if is_chain(e[1]) and chain_root(e[1]) in user:
+            # the subscripted NAME itself is a user name (`K[int]`): `'K'[int]` would subscript a str, so the
+            # subscription is written as one string (`list['K[int]']`)
+            return ['q', e]
         return ['s', quote_leaves(e[1], user), [quote_leaves(x, user) for x in e[2]]]
     if k == 'o':
         return O(quote_leaves(e[1], user), quote_leaves(e[2], user))
@@ -151,7 +160,7 @@ def variant_expr(e, variant, user=None):
     user = {n for n in names_of(e) if n not in BUILTINS and (n == 'hm' or n not in PRELUDE)}
     if variant == 'eval':
         return e
-    if variant in ('str', 'future'):
+    if variant in ('str', 'future', 'pep563'):
         return ['q', e]
     q = quote_leaves(unionize(e), user)
     return q
@@ -221,7 +230,7 @@ def defs_in(stmts, path=()):
 def render_program(stmts, variant, all_names=None) -> str:
     user = user_names(stmts) | {'hm'} if all_names is None else all_names
     lines = []
-    if variant == 'future':
+    if variant in ('future', 'pep563'):
         lines.append('from __future__ import annotations')
     lines += PRELUDE_SRC.splitlines()
 
@@ -260,7 +269,8 @@ def render_program(stmts, variant, all_names=None) -> str:
             elif k == 'def':
                 if st[4]:
                     lines.append(f'{pad}@beartype')
-                ann = render(variant_expr(st[3], variant, user))
+                # 'pep563': the annotation is written as in the evaluated variant and postponed by the future import
+                ann = render(st[3] if variant == 'pep563' else variant_expr(st[3], variant, user))
                 lines.append(f'{pad}def {st[2]}({"self, " if in_class else ""}x: {ann}):')
                 lines.append(f'{pad}    return None')
                 if not in_deco_class:
@@ -418,7 +428,8 @@ def run_model(progs: list) -> list:
                     crash = {'kind': o[1], 'arg': o[2], 'event': ev}
                     break
                 if o[0] == 'called' and ev is not None:
-                    calls[ev[2]] = {'impl': o[1], 'spec': o[2], 'cache': sorted(['.'.join(c[0]), c[1]] for c in o[3])}
+                    calls[ev[2]] = {'impl': o[1], 'spec': o[2], 'cache': sorted(['.'.join(c[0]), c[1]] for c in o[3]),
+                                    'fresh': sorted(['.'.join(c[0]), c[1]] for c in o[4])}
             per[v] = {'crash': crash, 'calls': calls}
         out.append(per)
     return out
@@ -461,6 +472,7 @@ SHAPES1 = {
     'typing_optional': lambda a: S(A(N('typing'), 'Optional'), a),
     'literal_or': lambda a: O(S(N('Literal'), L(['i', 1]), L(['str', 'a'])), a),
     'list_or_none': lambda a: O(S(N('list'), a), L('none')),
+    'or_none': lambda a: O(a, L('none')),
 }
 SHAPES2 = {
     'or2': lambda a, b: O(a, b),
@@ -470,7 +482,19 @@ SHAPES2 = {
     'list_or_list': lambda a, b: O(S(N('list'), a), S(N('list'), b)),
 }
 LEAF_NAMES = ['K', 'T', 'Later', 'Node', 'U']
-VALUE_KINDS = ['cls', 'cls', 'cls', 'holder', 'alias_seq', 'alias_union', 'alias_cls']
+VALUE_KINDS = ['cls', 'cls', 'cls', 'holder', 'alias_seq', 'alias_union', 'alias_cls', 'generic', 'generic', 'generic',
+               'alias_gen']
+# value kinds whose leaf is written SUBSCRIPTED (`K[int]`): a user generic class / an alias of a subscriptable builtin.
+# Every shape then wraps the subscripted name: `K[int]`, `list[K[int]]`, `K[int] | None`, `Optional[K[int]]`, …
+SUBSCRIPTED_KINDS = ('generic', 'alias_gen')
+
+
+def leaf_expr(name, kind):
+    if kind == 'holder':
+        return A(N(name), 'In')
+    if kind in SUBSCRIPTED_KINDS:
+        return S(N(name), N('int'))
+    return N(name)
 
 
 def wchoice(rng, table: dict):
@@ -509,6 +533,10 @@ class Builder:
             return ['alias', name, O(N('float'), N('bytes')) if alt else O(N('int'), N('str'))]
         if kind == 'alias_cls':
             return ['alias', name, N('float' if alt else 'int')]
+        if kind == 'generic':
+            return ['cls', name, self.fresh(), GENERIC_BASE, []]
+        if kind == 'alias_gen':
+            return ['alias', name, N('set' if alt else 'list')]
         raise ValueError(kind)
 
     def in_deco_body(self, i):
@@ -595,9 +623,11 @@ def gen_program(rng: random.Random) -> dict:
             binds.append((site, time, kind, False))
         if time == 'pre' and rng.random() < 0.4 and nsc > 1:
             j = rng.choice([i for i in range(nsc) if i != site])
-            binds.append((j, 'pre', rng.choice(['cls', 'alias_cls', 'alias_cls']), True))
+            # a shadowing binding of a subscripted name must be subscriptable too (else the evaluated variant dies)
+            binds.append((j, 'pre', rng.choice(SUBSCRIPTED_KINDS if kind in SUBSCRIPTED_KINDS
+                                               else ['cls', 'alias_cls', 'alias_cls']), True))
         leaves.append({'name': name, 'binds': binds, 'probe_after': rng.random() < 0.85})
-        exprs.append(A(N(name), 'In') if kind == 'holder' else N(name))
+        exprs.append(leaf_expr(name, kind))
     if nleaves == 1:
         shape = rng.choice(list(SHAPES1))
         hint = SHAPES1[shape](exprs[0])
@@ -797,6 +827,11 @@ def cmp_vectors(actual, expected, free):
     return bad
 
 
+def follows_impl_model(pr) -> bool:
+    """the real verdict vector of a probe is the one of the hint the implementation model predicts"""
+    return pr.get('impl') is not None and not cmp_vectors(pr['actual'], pr['impl'], pr['impl_free'])
+
+
 def probe_fid(stmts, tag):
     for st in stmts:
         if st[0] == 'probe' and st[1] == tag:
@@ -892,7 +927,13 @@ def evaluate(progs, models, reals, ex: Explore, stats: dict):
                                               'first': bad[:4], 'model_hint': mc['impl'], 'program': describe(p, v), 'stmts': p['stmts']})
                     rc = sorted({tuple(c) for c in pr['cache']})
                     mcache = sorted({tuple(c) for c in mc['cache']})
-                    if not set(rc) <= set(mcache) or dict(rc) != {k: w for k, w in mcache if k in dict(rc)}:
+                    # a string still inside the hint is re-evaluated by the violation raiser: `K[int]` then makes a
+                    # new subscripted proxy (never memoized) that is resolved afresh and cached beside the first
+                    refreshed = set(rc) - set(mcache)
+                    fresh = {tuple(c) for c in mc['fresh']}
+                    stats['cache_refreshed_subscripted'] += bool(refreshed) and refreshed <= fresh
+                    if not refreshed <= fresh or \
+                            (not refreshed and dict(rc) != {k: w for k, w in mcache if k in dict(rc)}):
                         ex.corr_diffs.append({'what': 'resolved-proxy cache differs from the model', 'variant': v, 'tag': tag,
                                               'real': rc, 'model': mcache, 'program': describe(p, v), 'stmts': p['stmts']})
                     else:
@@ -911,7 +952,10 @@ def evaluate(progs, models, reals, ex: Explore, stats: dict):
                     continue
                 bads = cmp_vectors(pr['actual'], pr['spec'], pr['spec_free'])
                 if bads:
-                    if mc['impl'] != mc['spec']:
+                    # the deviation is the one the implementation model predicts only if the real vector IS the
+                    # vector of the implementation-model hint; otherwise (a change of the code may hit exactly the
+                    # programs on which a known deviation exists) it is identified as an unpredicted failure
+                    if mc['impl'] != mc['spec'] and follows_impl_model(pr):
                         key = simple_key(p, v, tag, mc['impl'], mc['spec'])
                     else:
                         key = f'C07:unpredicted:{p["placement"]}:{p["shape"]}'
@@ -1009,7 +1053,10 @@ class _Always:
 def systematic(full: bool) -> list:
     """every placement x every scope of its chain x (bound before / after the decoration) + never bound, for one
     bare class leaf; late aliases of a PEP hint and late dotted names at the module / outermost / innermost scope
-    (all scopes when `full`). Probes after the def, after every late binding, after every scope ends, at the end."""
+    (all scopes when `full`); a SUBSCRIPTED user generic (`K[int]`, `list[K[int]]`, `K[int] | None`,
+    `Optional[K[int]]` in rotation) never bound / bound after the decoration in every scope of the chain / before
+    it in the innermost scope (every scope when `full`), and a late alias of a subscriptable builtin (`K = list`) at
+    the module / innermost scope. Probes after the def, after every late binding, after every scope ends, at the end."""
     out = []
     for placement, chain in PLACEMENTS.items():
         nsc = len(chain) + 1
@@ -1020,11 +1067,21 @@ def systematic(full: bool) -> list:
             if full or site in (0, 1, nsc - 1):
                 cases.append(('K', site, 'post', 'alias_seq'))
                 cases.append(('K', site, 'post', 'holder'))
-        for name, site, time, kind in cases:
+        cases.append(('K', None, 'never', 'generic'))
+        for site in range(nsc):
+            cases.append(('K', site, 'post', 'generic'))
+            if full or site == nsc - 1:
+                cases.append(('K', site, 'pre', 'generic'))
+            if full or site in (0, nsc - 1):
+                cases.append(('K', site, 'post', 'alias_gen'))
+        for ci, (name, site, time, kind) in enumerate(cases):
             b = Builder(_Always(), placement)
             binds = [] if time == 'never' else [(site, time, kind, False)]
-            leaf = A(N(name), 'In') if kind == 'holder' else N(name)
-            hint = leaf if kind != 'cls' or site is None or site % 2 == 0 else S(N('list'), leaf)
+            leaf = leaf_expr(name, kind)
+            if kind in SUBSCRIPTED_KINDS:
+                hint = [leaf, S(N('list'), leaf), O(leaf, L('none')), S(N('Optional'), leaf)][(ci + (site or 0)) % 4]
+            else:
+                hint = leaf if kind != 'cls' or site is None or site % 2 == 0 else S(N('list'), leaf)
             stmts = b.build(hint, [{'name': name, 'binds': binds, 'probe_after': True}], probe_after_def=True, end_probes=1)
             out.append({'stmts': stmts, 'placement': placement, 'shape': f'systematic-{kind}-{time}'})
     return out
@@ -1034,10 +1091,12 @@ def systematic(full: bool) -> list:
 # exploration
 # ---------------------------------------------------------------------------
 RULE = ('generated programs: one @beartype-checked callable at module level / in (nested) class bodies (method- or class-level '
-        'decoration) / in closures (depth 1-2, classes in functions), annotation = 16 one-leaf and 5 two-leaf hint shapes over user '
-        'classes, nested-class names, aliases of classes / PEP hints / unions, helper-module attributes, self references; every leaf '
-        'bound before the decoration, after it, or never, in module / enclosing-function / class scope, with shadowing bindings; 4 '
-        'variants (evaluated, whole string, from __future__ import annotations, strings at the names); probes inside the defining '
+        'decoration) / in closures (depth 1-2, classes in functions), annotation = 17 one-leaf and 5 two-leaf hint shapes over user '
+        'classes, nested-class names, aliases of classes / PEP hints / unions, helper-module attributes, self references, and '
+        'SUBSCRIPTED user names (K[int] with K a user generic class or an alias of a subscriptable builtin); every leaf '
+        'bound before the decoration, after it, or never, in module / enclosing-function / class scope, with shadowing bindings; 5 '
+        'variants (evaluated, whole string, that string under from __future__ import annotations, PEP 563 proper, strings at the '
+        'names); probes inside the defining '
         'frame, after it returned, after each late definition, at module end; each probe = verdict vector over 19 base objects + 13 '
         'per class (instance, subclass instance, same-named decoy, containers) under forced draws 0 and 1. '
         'non-trivial = (placement, shape, variant, checked hint) whose vector holds an accept AND a reject')
@@ -1045,7 +1104,7 @@ RULE = ('generated programs: one @beartype-checked callable at module level / in
 
 def new_stats() -> dict:
     return {'programs': 0, 'placements': {}, 'shapes': {}, 'ends': {}, 'outcomes': {}, 'deviations': {}, 'invisible_deviations': 0,
-            'cache_equal': 0, 'cache_subset': 0, 'skipped_lazy_ambiguous': 0, 'skipped_spec_undefined': 0, 'nontrivial': set()}
+            'cache_equal': 0, 'cache_subset': 0, 'cache_refreshed_subscripted': 0, 'skipped_lazy_ambiguous': 0, 'skipped_spec_undefined': 0, 'nontrivial': set()}
 
 
 def explore(ck: Check, n: int, seed: int, with_corpus: bool = True, bear_every: int = 0, full: bool = False) -> Explore:
@@ -1129,7 +1188,7 @@ def bear_model_run(cases: list) -> list:
     out = []
     for line in lean_driver(lines, 'Bear', exe='beardriver'):
         v = parse_sexp(line)
-        out.append(None if v[0] != 'ok' else [c == 'true' for c, _ in v[1][1:]])
+        out.append(None if v[0] != 'ok' else [c == 'true' for c, _ in v[1][2:]])
     return out
 
 
@@ -1291,10 +1350,13 @@ def signature(prog, variant, tag, impl, spec):
         return None
     path, a, b = dv
     e = expr_at(variant_expr(d[3], variant), path)
-    name = chain_root(e) if is_chain(e) else '?'
-    dotted = 'dotted' if e[0] == 'a' else 'bare'
+    # a subscripted user name (`K[int]`) whose proxy stands for the whole subscription: the leaf is the subscription
+    subbed = e[0] == 's' and is_chain(e[1]) and user_root(e[1]) and not (a[0] == 'sub' and b[0] == 'sub')
+    head = e[1] if subbed else e
+    name = chain_root(head) if is_chain(head) else '?'
+    dotted = 'dotted' if head[0] == 'a' else 'bare'
     binds = binds_of(prog['stmts'], name, chain, fid)
-    aa = a[0] if a[0] in ('unres', 'fake', 'via') else 'bound'
+    aa = a[0] if a[0] in ('unres', 'fake', 'via') else ('unsubscripted' if subbed and b[0] == 'sub' else 'bound')
     bb = b[0] if b[0] in ('unres', 'fake', 'via') else 'bound'
     return (aa, bb, dotted, where_class({f'{w}/{t}' for w, t, _ in binds}), e)
 
@@ -1428,7 +1490,8 @@ def check_one(prog, variant, tag, model=None, real=None):
         return None, {'real_end': real['variants'][variant]['crash'], 'model_end': model[variant]['crash']}
     bads = cmp_vectors(pr['actual'], pr['spec'], pr['spec_free'])
     return bool(bads), {'bads': bads, 'impl': mc['impl'], 'spec': mc['spec'], 'actual': pr['actual'], 'expected': pr['spec'],
-                        'impl_model_vector': pr.get('impl')}
+                        'impl_model_vector': pr.get('impl'),
+                        'predicted': mc['impl'] != mc['spec'] and follows_impl_model(pr)}
 
 
 def unpredicted_key(prog, variant, tag, bad) -> str:
@@ -1439,16 +1502,17 @@ def unpredicted_key(prog, variant, tag, bad) -> str:
     e = d[3]
     leaves = []
 
-    def walk(x):
+    def walk(x, subbed=''):
         if is_chain(x):
             n = chain_root(x)
             if n not in BUILTINS and (n == 'hm' or n not in PRELUDE):
                 binds = binds_of(prog['stmts'], n, chain, fid)
-                leaves.append(('dotted' if x[0] == 'a' else 'bare') + '@' + where_class({f'{w}/{t}' for w, t, _ in binds}))
+                leaves.append(('dotted' if x[0] == 'a' else 'bare') + subbed + '@' +
+                              where_class({f'{w}/{t}' for w, t, _ in binds}))
         elif x[0] == 'a':
             walk(x[1])
         elif x[0] == 's':
-            walk(x[1])
+            walk(x[1], '[]' if is_chain(x[1]) else '')         # `K[int]`: the user name itself is subscripted
             for y in x[2]:
                 walk(y)
         elif x[0] == 'o':
@@ -1459,7 +1523,7 @@ def unpredicted_key(prog, variant, tag, bad) -> str:
     walk(e)
     place = '/'.join(k for k, _, _ in chain) or 'module'
     deco = 'class-decorated' if any(dc for _, _, dc in chain) else 'def-decorated'
-    nested = 'plain' if is_chain(e) else 'nested'
+    nested = 'plain' if is_chain(e) or (e[0] == 's' and is_chain(e[1]) and user_root(e[1])) else 'nested'
     return f'C07:unpredicted:{place}:{deco}:{nested}:{"+".join(sorted(leaves)) or "no-user-name"}:{bad[2]}-instead-of-{bad[3]}'
 
 
@@ -1470,8 +1534,9 @@ def shrink_unpredicted(prog, variant, tag, rounds: int = 4):
         fid = probe_fid(cur['stmts'], tag)
         _, d = scope_chain(cur['stmts'], fid)
         alts = [drop_at(cur['stmts'], pos) for pos in removable_positions(cur['stmts'], tag, fid)]
-        leaves = [x for x in sub_exprs(d[3]) if is_chain(x) and x != d[3]]
-        alts = [set_hint(cur['stmts'], fid, x) for x in leaves[:3]] + alts
+        subs = [x for x in sub_exprs(d[3]) if x[0] == 's' and is_chain(x[1]) and user_root(x[1]) and x != d[3]]
+        leaves = [x for x in sub_exprs(d[3]) if is_chain(x) and x != d[3] and not any(x == y[1] for y in subs)]
+        alts = [set_hint(cur['stmts'], fid, x) for x in (subs + leaves)[:3]] + alts
         cands = [{**cur, 'stmts': st} for st in alts if still_refers(st, fid)][:24]
         if not cands:
             break
@@ -1480,13 +1545,18 @@ def shrink_unpredicted(prog, variant, tag, rounds: int = 4):
         nxt = None
         for c, m, r in zip(cands, models, reals):
             broken, det = check_one(c, variant, tag, m, r)
-            if broken and det['impl'] == det['spec']:
+            if broken and not det['predicted']:
                 nxt = c
                 break
         if nxt is None:
             break
         cur = nxt
     return cur
+
+
+def user_root(e) -> bool:
+    n = chain_root(e)
+    return n not in BUILTINS and (n == 'hm' or n not in PRELUDE)
 
 
 def sub_exprs(e):
@@ -1516,7 +1586,7 @@ def canonicalise(ex: Explore):
     out: dict = {}
     for f, sp, m, r, (_, variant, tag, _i, _s) in zip(pred, shrunk, models, reals, jobs):
         broken, det = check_one(sp, variant, tag, m, r)
-        if broken:
+        if broken and det['predicted']:
             mc = m[variant]['calls'][tag]
             key = simple_key(sp, variant, tag, mc['impl'], mc['spec'])
             d, oi, a, e = det['bads'][0]
@@ -1529,7 +1599,16 @@ def canonicalise(ex: Explore):
             out.setdefault(key, nf)
         else:
             out.setdefault(f.key, f)
-    unpred = [f for f in by_key.values() if f.key.startswith('C07:unpredicted:')][:4]
+    allun = [f for f in by_key.values() if f.key.startswith('C07:unpredicted:')]
+
+    def coarse(f):
+        chain, _ = scope_chain(f.replay['stmts'], probe_fid(f.replay['stmts'], f.replay['tag']))
+        return (any(k == 'fn' for k, _, _ in chain), f.replay.get('real'), f.replay.get('expected'))
+    # the (at most 4) failures shrunk with real runs: one per (closure or not, real verdict, expected verdict) first
+    first_of: dict = {}
+    for f in allun:
+        first_of.setdefault(coarse(f), f)
+    unpred = (list(first_of.values()) + [f for f in allun if f not in first_of.values()])[:4]
     for f in unpred:
         variant, tag = f.replay['variant'], f.replay['tag']
         sp = shrink_unpredicted({'stmts': f.replay['stmts'], 'placement': 'shrunk', 'shape': 'shrunk'}, variant, tag)
@@ -1540,8 +1619,9 @@ def canonicalise(ex: Explore):
             out.setdefault(key, Failure(
                 key=key,
                 what=f'variant {variant}, probe {tag} of the shrunk program: object #{oi} {objspecs_of(sp["stmts"])[oi]} under draw '
-                     f'{DRAWS[d]} gives {a}, the annotation written as evaluated objects gives {e}; the implementation model '
-                     f'predicts the specified hint {det["spec"]} (behaviour not covered by the model: correspondence broken too)',
+                     f'{DRAWS[d]} gives {a}, the annotation written as evaluated objects ({det["spec"]}) gives {e}; the '
+                     f'implementation model predicts a check against {det["impl"]}, which does not give the real verdicts '
+                     f'either (behaviour not covered by the model: correspondence broken too)',
                 replay={'stmts': sp['stmts'], 'variant': variant, 'tag': tag, 'object': oi, 'draw': DRAWS[d], 'real': a, 'expected': e,
                         'program': describe(sp, variant), 'unshrunk_program': f.replay['program']}))
         else:
@@ -1553,6 +1633,30 @@ def canonicalise(ex: Explore):
             [f for f in rest if f.key.startswith('C07:unpredicted:')][:(0 if unpred else 2)]:
         out.setdefault(f.key, f)
     ex.failures = list(out.values())
+
+
+# Genuine defects of the UNCHANGED library that the subscripted-name programs re-find (reported to the lead together
+# with the known_findings.json entries), passed over here only until they are listed there; then empty this set.
+#   `@beartype def f(x: 'K[int]')` then `K = list`: the subscripted proxy drops its arguments, `f(['a'])` is accepted
+#   while the evaluated `K[int]` (= list[int]) rejects it (Lean: C07_late_subscripted_counterexample);
+#   G / Lf / Lc = K bound after the decoration at module level / in the directly enclosing function / class body
+#   `class C: @beartype def m(self, x: Optional['K[int]'])` (or `'K[int]'` under PEP 563), `C().m(3)`, `K = list`,
+#   `C().m([1])`: _BeartypeCallHintPepRaiseDesynchronizationException — the wrapper checks the name-based fake the first
+#   call cached, the violation raiser re-evaluates the string, `K[int]` makes a NEW subscripted proxy, resolved to `list`
+PENDING_KNOWN: set = set()        # (the four keys found while extending the generator are listed in known_findings.json now)
+
+
+def pass_over_pending(ck, ex: Explore):
+    from ..common import load_known
+    listed = {k['key'] for k in load_known() if k['property'] == 'C07'}
+    hit = sorted({f.key for f in ex.failures if f.key in PENDING_KNOWN - listed})
+    for key in hit:
+        f = next(f for f in ex.failures if f.key == key)
+        if ck is not None:
+            ck.log(f'[C07] PENDING-KNOWN-FINDING (genuine defect reported to the lead, not yet in known_findings.json; '
+                   f'passed over) [key={key}] {f.what}')
+    ex.failures = [f for f in ex.failures if f.key not in hit]
+    ex.extra['pending_known_findings_passed_over'] = hit
 
 
 def replay(data: dict) -> int:
@@ -1597,13 +1701,16 @@ def main(ck: Check) -> int:
     proof = ck.prove(MODULE, PROP_FILE)
     ex = explore(ck, n=110 if quick else 1600, seed=ck.seed, bear_every=6 if quick else 8, full=not quick)
     canonicalise(ex)
+    pass_over_pending(ck, ex)
     ck.decide(proof, ex, deep_search=lambda: deep(ck))
     ck.evidence(proof, ex,
                 level_note='PARTIAL: the theorems cover the resolution LOGIC of the model (scope layering, proxy state machine, '
                            'module-level histories, printer/parser round trip); partial theorems: C07_late_partial (module level, up '
                            'to the through-a-proxy marker), C07_scope_python_nested_partial (name not bound in a farther enclosing '
                            'function), C07_unresolved_raises_then_recovers_partial (frameless proxy or running parent) - each with a '
-                           'decided _counterexample that is also a known finding. Frame introspection, eval of strings and the check '
+                           'decided _counterexample that is also a known finding; late SUBSCRIPTED names: C07_late_subscripted[_local] '
+                           '(same name, same parent code object: resolved like the unsubscripted proxy, also in closures) with '
+                           'C07_late_subscripted_counterexample (the arguments are dropped). Frame introspection, eval of strings and the check '
                            'of the resolved hint are modelled (environment abstraction, Bear core) and tied behaviourally on every run',
                 assumptions=['single module; names are rebound at most once (a rebinding after a successful resolution is not modelled)',
                              'CPython 3.12 only (PEP 649/749 lazily evaluated annotations are not exercised)',
@@ -1620,4 +1727,5 @@ def main(ck: Check) -> int:
 def deep(ck: Check) -> Explore:
     ex = explore(ck, n=400, seed=ck.seed + 1, bear_every=0, full=True)
     canonicalise(ex)
+    pass_over_pending(ck, ex)
     return ex
